@@ -138,7 +138,7 @@ static inline int check_header(uoffset_t end, uoffset_t base, uoffset_t offset)
 static inline int verify_struct(uoffset_t end, uoffset_t base, uoffset_t offset, uoffset_t size, uint16_t align)
 {
     /* Structs can have zero size so `end` is a valid value. */
-    if (offset == 0 || base + offset > end) {
+    if (offset == 0 || base + offset < base || base + offset > end) {
         return flatcc_verify_error_offset_out_of_range;
     }
     base += offset;
